@@ -26,6 +26,45 @@ Definition enc_call (p : N * sink_call) : N * N * N * N :=
   | SWrite b => (fst p, 2, N.of_nat (length b), hash b)
   end.
 
+(** Does [impl_tee!] in the tree under check run both writers of a [Tee] (writer.rs, read on every run)? *)
+Definition current_tee_both : bool := Gen_fmtbuf.tee_runs_both.
+
+(** How a recording writer answered: 0 accepted everything offered, 3 accepted a part, 4 Interrupted,
+    5 another error, 6 panicked, 7 Ok(0). *)
+Definition rcode (offered : bytes) (r : resp) : N :=
+  match r with
+  | RsAccept n => if n =? 0 then 7 else if blen offered <=? n then 0 else 3
+  | RsInterrupted => 4
+  | RsFail => 5
+  | RsPanic => 6
+  end.
+
+(** fault-aware log entries: make as above; write = (i, 2 + rcode, |offered|, hash offered); flush = (i, 3, rcode, 0) *)
+Definition enc_fentry (p : N * fentry) : N * N * N * N :=
+  match snd p with
+  | FMake0 => (fst p, 0, 0, 0)
+  | FMake m => (fst p, 1, 2 * m_level m + (if m_span m then 1 else 0), enc_meta m)
+  | FCall (CWrite off r) => (fst p, 2 + rcode off r, N.of_nat (length off), hash off)
+  | FCall (CFlush r) => (fst p, 3, match r with RsAccept _ => 0 | _ => rcode [] r end, 0)
+  end.
+
+Definition plans_of (l : list (list script)) : nat -> list script := fun k => nth k l [].
+
+(** Full / Compact: a thread's ops under fault plans (one plan per emission, in completion order). *)
+Definition eval_thread_f (lie : bool) (f : fmt) (o : opts) (sc : spancfg) (w : wexp) (th : thr) (ops : list op)
+  (plans : list (list script)) :=
+  map enc_fentry (sink_log_f current_tee_both (Cfg current_policy lie) meta_of w (plans_of plans) (thread_events f o sc th ops)).
+
+Definition full_thread_f (lie : bool) (f : fmt) (o : opts) (sc : spancfg) (w : wexp) (th : thr) (ops : list op)
+  (plans : list (list script)) :=
+  sink_log_f current_tee_both (Cfg current_policy lie) meta_of w (plans_of plans) (thread_events f o sc th ops).
+
+Definition eval_opaque_f (lie : bool) (w : wexp) (evs : list (event N meta)) (plans : list (list script)) :=
+  map enc_fentry (sink_log_f current_tee_both (Cfg current_policy lie) (fun m => m) w (plans_of plans) evs).
+
+Definition eval_direct_f (w : wexp) (mt : wmethod) (text : bytes) (plan : list script) :=
+  map enc_fentry (dist_direct_f current_tee_both w mt text plan).
+
 Definition eval_thread (lie : bool) (f : fmt) (o : opts) (sc : spancfg) (w : wexp) (th : thr) (ops : list op) :=
   map enc_call (thread_sink_log (Cfg current_policy lie) f o sc w th ops).
 
@@ -36,7 +75,7 @@ Definition full_thread (lie : bool) (f : fmt) (o : opts) (sc : spancfg) (w : wex
     event over chunk identifiers (2k+1 = "the whole record of event k", 2k = "what event k had written
     when it was aborted"). *)
 Definition eval_opaque (lie : bool) (w : wexp) (evs : list (event N meta)) :=
-  map enc_call (distribute (fun m => m) w (snd (run_thread (Cfg current_policy lie) [] evs))).
+  map enc_call (distribute (fun m => m) w (snd (run_thread no_unwind (Cfg current_policy lie) [] evs))).
 
 Definition eval_direct (w : wexp) (text : bytes) := map enc_call (dist_direct w text).
 
